@@ -63,6 +63,7 @@ def _pairs(args):
         s0["meta"] = [[1] if i % 2 == 0 else [0] for i in range(s0["n"])]
         s1["meta"] = [[2] if i % 3 == 0 else [0] for i in range(s1["n"])]
         for ordered in (False, True):
+            full = None
             for reduce in (False, True):
                 b0 = core.build(s0, fl, name="t0")
                 b1 = core.build(s1, fl, name="t1")
@@ -75,6 +76,10 @@ def _pairs(args):
                     r = b0.tree.diff(b1.tree, ordered=ordered, reduce=reduce)
                     rec["r"], rec["marks_known"] = project_result(r, fl)
                     rec["status"] = "ok"
+                    if not reduce:
+                        full = rec["r"]
+                    elif full is not None:
+                        rec["full"] = full      # the unreduced result for the same inputs (law reduce_is_restriction)
                 except Exception as e:  # noqa: BLE001
                     rec["status"] = type(e).__name__
                 rec["inputs_same"] = core.project(b0)["st"] == s0 and core.project(b1)["st"] == s1
@@ -164,6 +169,31 @@ def mutate(rng, st, d):
     return {k: cur[k] for k in ("n", "par", "kids", "top", "dat", "did", "knd", "meta", "typed")}
 
 
+def wrap_moves(sts, fresh=(7, 8)):
+    """edit-derived pairs (a, b): b is a with one branch moved to the bottom of a NEW chain of two fresh labels
+    (a move into depth 2 of an added branch), the chain appended at the top level or below another node"""
+    from . import trace
+    fl = flavours.make("str")
+    keep = ("n", "par", "kids", "top", "dat", "did", "knd", "meta", "typed")
+    out = []
+    for a in sts:
+        a = core.norm_state(a)
+        for x in range(1, a["n"] + 1):
+            for host in (0, 1 if x != 1 else 2):
+                if host > a["n"]:
+                    continue
+                b = core.build(a, fl)
+                try:
+                    chain = b.node(host).add(fl.data(fresh[0])).add(fl.data(fresh[1]))
+                    b.nodes[x].move_to(chain)
+                except Exception:  # noqa: BLE001   (host inside the moved branch etc.)
+                    continue
+                b.nodes = [None] + [nd for nd in b.nodes[1:] if nd is not None]
+                cur = trace.snapshot(b)
+                out.append(({k: a[k] for k in keep}, {k: cur[k] for k in keep}))
+    return out
+
+
 def run(prop: str, tier: str) -> int:
     from .checks_query import labelled
     seed = env_seed()
@@ -179,6 +209,8 @@ def run(prop: str, tier: str) -> int:
     sts = labelled(rep, max_nodes=3, d=2 if quick else 3, label="labelled<=3")
     pairs = [(a, b) for a in sts for b in sts]
     run_pairs(rep, pairs, "str", "all pairs")
+    wm = wrap_moves(sts if quick else labelled(rep, max_nodes=3, d=2, label="labelled<=3x2"))
+    run_pairs(rep, wm + [(b, a) for a, b in wm], "str", "moves into a new two-level branch (and back)")
     rng = random.Random(seed)
     rp = []
     for _ in range(300 if quick else 6000):
